@@ -26,6 +26,8 @@ type Profile struct {
 	ScalarBias           int  // extra weight for scalar columns (index-heavy profiles)
 	ImmutableWeak        bool // allow immutable weak-reference columns (known finding otherwise excluded)
 	OptIndexes           bool // schema indexes may include optional columns (references too)
+	WideBounds           bool // integer constraints may lie beyond +-2^53 (schema codec only)
+	MapEnums             bool // string enums also as map keys and map values
 }
 
 var (
@@ -130,7 +132,7 @@ func genBase(t *rapid.T, p Profile, tables []string, mapKey, mapVal bool, shape 
 	if b.T == TUUID && p.Refs > 0 && rapid.IntRange(0, 10).Draw(t, "isref") <= p.Refs+2 {
 		b.Ref = &Ref{Table: rapid.SampledFrom(tables).Draw(t, "reftable"), Weak: rapid.IntRange(0, 9).Draw(t, "weak") < 4}
 	}
-	if (p.Enums || p.AnyEnums) && !mapKey && !mapVal && b.Ref == nil && rapid.IntRange(0, 9).Draw(t, "enum") < 2 {
+	if (p.Enums || p.AnyEnums) && ((!mapKey && !mapVal) || (p.MapEnums && b.T == TStr)) && b.Ref == nil && rapid.IntRange(0, 9).Draw(t, "enum") < 2 {
 		switch {
 		case b.T == TStr:
 			n := rapid.IntRange(1, 3).Draw(t, "nenum")
@@ -163,6 +165,17 @@ func genBase(t *rapid.T, p Profile, tables []string, mapKey, mapVal bool, shape 
 		case TInt:
 			b.MinInteger = i64("minInteger", -1000, 0)
 			b.MaxInteger = i64("maxInteger", 1, 1<<40)
+			if p.WideBounds && rapid.IntRange(0, 3).Draw(t, "widebounds") == 0 {
+				// bounds that a float64 cannot hold exactly
+				lo := rapid.SampledFrom([]int64{-1 << 63, -1<<63 + 1, -1<<53 - 1, -1<<53 - 3, -4611686018427387905}).Draw(t, "wideMin")
+				hi := rapid.SampledFrom([]int64{1<<63 - 1, 1<<63 - 2, 1<<53 + 1, 1<<53 + 3, 4611686018427387905}).Draw(t, "wideMax")
+				if b.MinInteger != nil {
+					b.MinInteger = &lo
+				}
+				if b.MaxInteger != nil {
+					b.MaxInteger = &hi
+				}
+			}
 		case TReal:
 			if rapid.Bool().Draw(t, "minReal?") {
 				v := float64(rapid.IntRange(-100, 0).Draw(t, "minReal")) / 4
